@@ -25,6 +25,7 @@ func c07(c *Ctx) {
 	c07Sender(c)
 	c07Rotate(c)
 	c07Write(c)
+	c07WholeLineBatches(c)
 }
 
 func c07Sender(c *Ctx) {
